@@ -15,17 +15,17 @@ import (
 	"verif.local/kit"
 )
 
-func c11CachedTx(entry string, db *sql.DB, fn func(context.Context, sqlx.Session) error) error {
+func c11CachedTx(entry string, ctx context.Context, db *sql.DB, fn func(context.Context, sqlx.Session) error) error {
 	cc := sqlc.NewConnWithCache(sqlx.NewConnFromDB(db), nil)
 	if entry == "cachedctx" {
-		return cc.TransactCtx(context.Background(), fn)
+		return cc.TransactCtx(ctx, fn)
 	}
 	return cc.Transact(func(s sqlx.Session) error { return fn(context.Background(), s) })
 }
 
 func TestVerif_C11_txcached(t *testing.T) {
 	kit.Run(t, "C11", "tx-cached", kit.Opts{Quick: 5000, Thorough: 240000},
-		sqlx.VerifC11GenTx([]string{"cached", "cachedctx"}),
+		sqlx.VerifC11GenTx([]string{"cached", "cachedctx", "cachedctx"}),
 		func(c sqlx.C11TxCase) kit.Verdict { return sqlx.VerifC11InterpTx(c, c11CachedTx) })
 }
 
@@ -36,11 +36,11 @@ func c11CachedQueryRun(c sqlx.C11RowsCase, db *sql.DB, v any) error {
 	cc := sqlc.NewConnWithCache(sqlx.NewConnFromDB(db), nil)
 	switch {
 	case c.Single && c.Ctx:
-		return cc.QueryRowNoCacheCtx(context.Background(), v, c11CachedQuery, 1)
+		return cc.QueryRowNoCacheCtx(sqlx.VerifC11RowsCtx(c), v, c11CachedQuery, 1)
 	case c.Single:
 		return cc.QueryRowNoCache(v, c11CachedQuery, 1)
 	case c.Ctx:
-		return cc.QueryRowsNoCacheCtx(context.Background(), v, c11CachedQuery, 1)
+		return cc.QueryRowsNoCacheCtx(sqlx.VerifC11RowsCtx(c), v, c11CachedQuery, 1)
 	default:
 		return cc.QueryRowsNoCache(v, c11CachedQuery, 1)
 	}
